@@ -636,7 +636,12 @@ pub fn run(env: &Env) -> i32 {
         violations: violations.len(),
     };
     ev.write();
-    conclude("C01", &violations)
+    let reproduce = |v: &Value| -> Option<String> {
+        let case: Case = serde_json::from_value(v["case"].clone()).ok()?;
+        let o = runner.run(&case).ok()?;
+        judge(&o, v["mode"].as_str().unwrap_or("")).map(|(s, _)| s)
+    };
+    crate::report::conclude_with("C01", &violations, Some(&reproduce))
 }
 
 pub fn replay(env: &Env, v: &Value) -> i32 {
